@@ -37,6 +37,9 @@ def unitary(gate, decomposition="qsd", iso=0, apply_a2=True):
     unitary matrix gate using the cosine sine decomposition.
     """
     matrix = np.asarray(gate)
+    if matrix.dtype in (np.float16, np.float32, np.complex64):
+        # the decompositions (cossin, eig, Givens) would run in the input's reduced precision
+        matrix = matrix.astype(np.result_type(matrix.dtype, np.float64))
     if (
         matrix.ndim != 2
         or matrix.shape[0] != matrix.shape[1]
